@@ -275,7 +275,18 @@ def gen_pair(rng, tier):
     kind = rng.random()
     maxg = 9 if big else 8
     maxs = 7
-    if kind < 0.45:
+    if kind < 0.08:
+        # rings and their complements matched on themselves (plus a pendant node): dihedral symmetry under many numberings
+        m = rng.choice([5, 6, 7, 7])
+        S = {'n': m, 'edges': structured(rng, 'cycle', m)}
+        G = {'n': m, 'edges': dict(S['edges'])}
+        if rng.random() < 0.4 and m < maxg:
+            G = {'n': m + 1, 'edges': dict(S['edges'])}
+            G['edges'][(rng.randrange(m), m)] = 0
+        if rng.random() < 0.35:
+            for g in (G, S):
+                g['edges'] = {(u, v): 0 for u in range(g['n']) for v in range(u + 1, g['n']) if (u, v) not in g['edges']}
+    elif kind < 0.45:
         n = rng.randint(1, maxg)
         G = {'n': n, 'edges': gnp(rng, n, rng.choice([0.2, 0.4, 0.6, 0.9]))}
         if rng.random() < 0.5:
